@@ -134,19 +134,28 @@ def run(P, R, tier):
     n, rets = dimrun.route(P, R, ["wccn.fit", "wccn.transform", "white.fit", "white.transform"], rules=["DIM.", "EXT."], where_prefix=["wccn:", "whitening:"])
     R.floor("DIM/EXT obligations (WCCN / whitening)", n, 8)
     # ---- WCCN -----------------------------------------------------------------------
-    f, du = check_fit_common(P, R, "wccn:WCCN.fit", inv_of=[(("X",), "the data"), (("y", "y_", "possible_labels"), "the labels"), (("n_classes", "len"), "the number of classes scales the scatter")])
+    f, du = check_fit_common(P, R, "wccn:WCCN.fit", inv_of=[(("X",), "the data"), (("y",), "the labels"), (("len",), "the number of classes scales the scatter")])
     n, colls, loops, conts = idx.check_label_indexing(P, R, f, contract_0_k=False)
     idx.check_label_uses(P, R, f)
     nl = idx.check_set_loop_order(P, R, f)
-    if not any(isinstance(x, ast.Subscript) and isinstance(x.value, ast.Name) and x.value.id == "X" and isinstance(x.slice, ast.Slice) for x in ast.walk(f.node)):
+    if not any(isinstance(x, ast.Subscript) and isinstance(x.value, ast.Name) and x.value.id == f.value_params[0] and isinstance(x.slice, ast.Slice) for x in ast.walk(f.node)):
         R.floor("IDX.loops[WCCN.fit]", len(loops), 2)
-    # class count = number of distinct labels
+    # class count = number of distinct labels: the scalar that scales the scatter before the inversion
+    scale_names = set()
     for st, t, v, k in stores(f):
-        if isinstance(t, ast.Name) and t.id == "n_classes":
+        if isinstance(t, ast.Name) and isinstance(v, ast.BinOp) and isinstance(v.op, (ast.Mult, ast.Div)):
+            for side in (v.left, v.right):
+                for nm in ast.walk(side):
+                    if isinstance(nm, ast.Name):
+                        rd = du.reaching(du.stmt_of(st), nm.id)
+                        if rd and all(d.how == "assign" and isinstance(d.value, (ast.Call, ast.BinOp)) and not any(isinstance(x, ast.BinOp) and isinstance(x.op, ast.MatMult) for x in ast.walk(d.value)) and ("len(" in src(d.value) or "max(" in src(d.value) or "shape" in src(d.value)) for d in rd):
+                            scale_names.add(nm.id)
+    for st, t, v, k in stores(f):
+        if isinstance(t, ast.Name) and t.id in scale_names:
             ok = isinstance(v, ast.Call) and src(v.func) == "len" and v.args and (
                 (isinstance(v.args[0], ast.Name) and v.args[0].id in colls) or (isinstance(v.args[0], ast.Call) and src(v.args[0].func).split(".")[-1] in ("set", "unique", "unique_labels"))
             )
-            R.check(ok, "IDX.count", f.key, f"n_classes = {src(v)}", "number of distinct labels", "class count is not the number of distinct labels (depends on label values)", st.lineno)
+            R.check(ok, "IDX.count", f.key, f"{t.id} = {src(v)}", "number of distinct labels", "class count is not the number of distinct labels (depends on label values)", st.lineno)
     # centred block: rows of class L minus the mean of class L
     found = 0
     for lp in loops:
@@ -158,7 +167,7 @@ def run(P, R, tier):
                 c_r = cone(du, v.right, du.stmt_of(st), interproc=False)
                 lab_l = lp.label_var in {d.var for d in c_l.defs} or lp.label_var in {n.id for n in c_l.nodes if isinstance(n, ast.Name)}
                 lab_r = lp.label_var in {d.var for d in c_r.defs} or lp.label_var in {n.id for n in c_r.nodes if isinstance(n, ast.Name)}
-                if "X" in c_l.params | c_r.params:
+                if f.value_params[0] in c_l.params | c_r.params:
                     found += 1
                     R.check(lab_l and lab_r, "IDX.pair", f.key, src(st)[:70], "rows and mean selected by the same class", "centred block does not pair the rows of a class with that class's mean", st.lineno)
     # rows that enter the scatter are selected by label equality, never by position
@@ -168,7 +177,7 @@ def run(P, R, tier):
             R.violation("POL.scatter", f.key, src(n_)[:60], "the per-class scatter is not *added* to the within-class scatter", n_.lineno)
         if isinstance(n_, ast.AugAssign) and isinstance(n_.op, ast.Add) and isinstance(n_.target, ast.Name) and any(isinstance(x, ast.BinOp) and isinstance(x.op, ast.MatMult) for x in ast.walk(n_.value)):
             c = cone(du, n_.value, du.stmt_of(n_), interproc=False)
-            for sub in [x for x in c.nodes if isinstance(x, ast.Subscript) and isinstance(x.value, ast.Name) and x.value.id == "X"]:
+            for sub in [x for x in c.nodes if isinstance(x, ast.Subscript) and isinstance(x.value, ast.Name) and x.value.id == f.value_params[0]]:
                 nsel += 1
                 idxs = sub.slice.elts if isinstance(sub.slice, ast.Tuple) else [sub.slice]
                 first = idxs[0]
